@@ -217,3 +217,83 @@ def gen_model(rng, toks, style=None, require_wf=None, dur=None):
 
 def golden_class(spec, toks):
     return CmdModel(spec).classify(tuple(toks))
+
+
+def gen_model_multi(rng, toks, dur=None):
+    """Model with a colliding outcome alphabet: classes that share the exit
+    code but differ in one stream only, streams that contain the golden stream
+    as a substring, a class that differs in the exit code only."""
+    d = dur if dur is not None else rng.choice([0.01, 0.02, 0.05])
+    ex = rng.choice([0, 1, 3, 134, -6])
+    out = rng.choice(['bug\n', 'unsat\n', 'sat\nbug\n', ''])
+    err = rng.choice(['', 'error: assertion failed\n', 'warn\n'])
+    beh = ['normal', d]
+    classes = {
+        'bug': {'exit': ex, 'out': out, 'err': err, 'beh': beh},
+        # stdout contains the golden stdout but is longer
+        'out_superset': {'exit': ex, 'out': 'pre\n' + out + 'post\n',
+                         'err': err, 'beh': beh},
+        # stderr contains the golden stderr but is longer
+        'err_superset': {'exit': ex, 'out': out,
+                         'err': err + 'at line 3\n', 'beh': beh},
+        'out_differs': {'exit': ex, 'out': 'other\n', 'err': err,
+                        'beh': beh},
+        'err_differs': {'exit': ex, 'out': out, 'err': 'different\n',
+                        'beh': beh},
+        'exit_differs': {'exit': ex + 1 if ex >= 0 else -11, 'out': out,
+                         'err': err, 'beh': beh},
+        'streams_swapped': {'exit': ex, 'out': err, 'err': out, 'beh': beh},
+        'ok': {'exit': 0 if ex != 0 else 1, 'out': 'sat\n', 'err': '',
+               'beh': beh},
+        'perr': {'exit': 2, 'out': '', 'err': '(error "parse error")\n',
+                 'beh': ['normal', d / 2]},
+    }
+    names = ['out_superset', 'err_superset', 'out_differs', 'err_differs',
+             'exit_differs', 'streams_swapped']
+    rng.shuffle(names)
+    rules = [[{'k': 'golden', 'dig': reftok.digest(toks)}, 'bug']]
+    for n in names[:rng.choice([2, 3, 4, 6])]:
+        rules.append([{
+            'k': 'hash',
+            'p': rng.choice([0.1, 0.2, 0.3]),
+            'salt': rng.randrange(1 << 30)
+        }, n])
+    rules.append([gen_base_pred(rng, toks, rng.choice(
+        ['contains', 'count', 'subseq', 'hash'])), 'bug'])
+    return {'rules': rules, 'default': 'ok', 'classes': classes}
+
+
+def gen_compare_opts(rng, golden, cc=False):
+    """Comparison options that the golden outcome (exit, out, err) satisfies."""
+    opts = []
+    sfx = '-cc' if cc else ''
+
+    def sub(s):
+        s2 = s.strip('\n')
+        if not s2:
+            return None
+        a = rng.randrange(len(s2))
+        b = rng.randrange(a + 1, len(s2) + 1)
+        return s2[a:b]
+
+    k = rng.random()
+    if cc:
+        if k < 0.3:
+            opts.append('--ignore-output-cc')
+        if rng.random() < 0.3 and sub(golden[1]):
+            opts += ['--match-out-cc', sub(golden[1])]
+        if rng.random() < 0.3 and sub(golden[2]):
+            opts += ['--match-err-cc', sub(golden[2])]
+        return opts
+    if k < 0.2:
+        opts.append('--ignore-output')
+    else:
+        if rng.random() < 0.25:
+            opts.append('--ignore-out')
+        if rng.random() < 0.25:
+            opts.append('--ignore-err')
+    if rng.random() < 0.35 and sub(golden[1]):
+        opts += ['--match-out', sub(golden[1])]
+    if rng.random() < 0.35 and sub(golden[2]):
+        opts += ['--match-err', sub(golden[2])]
+    return opts
